@@ -982,4 +982,19 @@ def install_regex(S):
     if getattr(S, "re", None) is re:
         S.re = ReShim()
         names.append("re")
+    # attribute text that carries symbolic characters (placeholders survive expat) becomes a SymStr again,
+    # so that str methods applied to it (lower, split, strip ...) are symbolic too
+    orig_iterparse = getattr(S, "iterparse", None)
+    if orig_iterparse is not None and not getattr(orig_iterparse, "_symx", False):
+        def iterparse(source, events=None, parser=None):
+            for event, elem in orig_iterparse(source, events=events, parser=parser):
+                if event == "start":
+                    att = elem.attrib
+                    for k, v in list(att.items()):
+                        if isinstance(v, str) and not isinstance(v, SymStr) and _ex() is not None and has_placeholder(v):
+                            att[k] = SymStr(lift_chars(v))
+                yield event, elem
+        iterparse._symx = True
+        S.iterparse = iterparse
+        names.append("iterparse")
     return names
